@@ -45,6 +45,10 @@ PRETEXTS = [
     ("# rule: ", "# Rule: info: "),
     ("# Re\u0301gle: ", "# De\u0301tail: "),
     ("# \u212bngstr\u00f6m ", "# \u2126 "),
+    # markers that are told apart only by what follows a common stem (the closing blank matters)
+    ("# Rule ", "# Rule-info "),
+    ("# F ", "# F2 "),
+    ("#name-desc ", "#name "),
 ]
 NAME_ALPHA = ["abcdefghijklmnopqrstuvwxyz0123456789", " ", "éüß€日本𝔘", ".-_@!?()[]{}*+=/", "ABCXYZ", "#:;,\"\\'|<>~", "e\u0301\u212b\u2126\ufb01\u200b\u200d\u202e\ufeff\u00a0\U0001f600\u0130\u00df"]
 
@@ -179,6 +183,14 @@ def run(ch, config, res):
             op = ["add", "update", "replace", "disable", "enable", "move", "remove", "restart"][k]
             n = names[wl.int("name", len(names))]
             label = "op %d %s(%r)" % (i, op, n)
+            if wl.flag("refused_first", 1, 6):
+                # an add the factory refuses (see simkit.editor.BAD_DEFS), on a name that is not in use
+                bconds_, bacts_, bmt_ = E.bad_definition(wl, "baddef")
+                rr = E.classify(lambda: (fs.addfilter("never-added", bconds_, bacts_, bmt_), True)[1])
+                res.count("refused_builds")
+                if rr[0] == "ok":
+                    res.count("ended:unsupported-description-accepted")
+                    break
             if op in ("add", "update"):
                 struct, values = E.gen_definition(wl, "def", "benign")
                 conds, acts, mt = E.fill(struct, values)
